@@ -44,6 +44,7 @@ type parked struct {
 	rlock  bool // read-lock request
 	ncase  int
 	hasDef bool
+	cases  []Case
 	dom    *Domain
 	wake   chan int
 }
@@ -57,7 +58,7 @@ type Domain struct {
 	Dead   atomic.Bool // crashed: endpoints closed, goroutines never released
 	Frozen atomic.Bool // SIGSTOP: goroutines never released, reads never complete
 	exec   int64
-	OnKill []func()    // callbacks run when the domain crashes (close endpoints...)
+	OnKill []func() // callbacks run when the domain crashes (close endpoints...)
 	mu     sync.Mutex
 }
 
@@ -104,12 +105,12 @@ type Fault struct {
 type Step struct {
 	NAlts  int    `json:"n"`
 	Choice int    `json:"c"`
-	Sig    string `json:"s"`          // signature of the chosen alternative
-	T      int64  `json:"t"`          // virtual ms since execution start
+	Sig    string `json:"s"`           // signature of the chosen alternative
+	T      int64  `json:"t"`           // virtual ms since execution start
 	Alts   string `json:"a,omitempty"` // all alternatives (only kept when tracing)
 	// SelTaken: when the released goroutine was at a select, the clause it took
 	// (-1 default, -2 none ready / blocked, -3 not a select)
-	SelTaken int `json:"k,omitempty"`
+	SelTaken int    `json:"k,omitempty"`
 	H        string `json:"h,omitempty"`
 	alts     []alt
 }
@@ -122,44 +123,84 @@ type Violation struct {
 
 // Exec is one controlled execution.
 type Exec struct {
-	mu        sync.Mutex
-	parkedL   []*parked
-	lids      map[int64]int
-	nextLid   int
-	domains   map[unsafe.Pointer]*Domain
-	domByName map[string]*Domain
-	timers    []time.Time
-	faults    []*Fault
-	free      atomic.Bool
-	bodyDone  atomic.Bool
-	t0        time.Time
-	lastLid   int
-	prefix    []int // sparse: choice per position (dense slice, zeros beyond)
-	Steps     []Step
-	Trace     bool
-	Devs      int  // deviations taken
-	TimeDevs  int  // TIME deviations taken
-	Faulted   []string
-	Ended     bool
-	ExecID    int64
-	Redundant bool // a select-priority alternative turned out not to be ready
-	Diverged  string
-	obs       []string
-	viol      []Violation
-	cleanups  []func()
-	Horizon   time.Duration
-	Settle    time.Duration
-	sigs      map[uint64]struct{}
-	hashAt    []uint64 // rolling hash before each position
-	roll      uint64
+	mu         sync.Mutex
+	parkedL    []*parked
+	lids       map[int64]int
+	nextLid    int
+	domains    map[unsafe.Pointer]*Domain
+	domByName  map[string]*Domain
+	timers     []time.Time
+	faults     []*Fault
+	free       atomic.Bool
+	bodyDone   atomic.Bool
+	t0         time.Time
+	lastLid    int
+	prefix     []int // sparse: choice per position (dense slice, zeros beyond)
+	Steps      []Step
+	Trace      bool
+	Devs       int // deviations taken
+	TimeDevs   int // TIME deviations taken
+	Faulted    []string
+	Ended      bool
+	tornDown   bool
+	ExecID     int64
+	Redundant  bool // a select-priority alternative turned out not to be ready
+	Diverged   string
+	obs        []string
+	viol       []Violation
+	cleanups   []func()
+	Horizon    time.Duration
+	Settle     time.Duration
+	sigs       map[uint64]struct{}
+	hashAt     []uint64 // rolling hash before each position
+	roll       uint64
 	EndBlocked []string // description of goroutines still parked at the end
-	MaxSteps  int
-	stuck     bool
-	selTaken  map[*parked]int
+	MaxSteps   int
+	stuck      bool
+	selTaken   map[*parked]int
 	// select bookkeeping: explorer asked for prio k on parked p; the goroutine reports the case taken
 	pendingSel *selReq
-	wg        sync.WaitGroup
-	Data      map[string]any
+	wg         sync.WaitGroup
+	Data       map[string]any
+	closed     map[any]struct{}
+	timerChans map[uintptr]timerChan
+	atomic     atomic.Bool
+}
+
+type timerChan struct {
+	ch <-chan time.Time // keeps the channel alive so that its address is not reused
+	dl time.Time
+}
+
+func (x *Exec) markClosed(ch any) {
+	x.mu.Lock()
+	x.closed[ch] = struct{}{}
+	x.mu.Unlock()
+}
+
+func (x *Exec) isClosed(ch any) bool {
+	x.mu.Lock()
+	_, ok := x.closed[ch]
+	x.mu.Unlock()
+	return ok
+}
+
+func (x *Exec) timerDeadline(p uintptr) (time.Time, bool) {
+	x.mu.Lock()
+	t, ok := x.timerChans[p]
+	x.mu.Unlock()
+	return t.dl, ok
+}
+
+// Hold makes the execution atomic from here on: the explorer keeps scheduling
+// canonically without offering alternatives or recording decision points
+// (used around scenario set-up that is not the subject of the check).
+func (x *Exec) Hold() { x.atomic.Store(true) }
+
+// Release ends the atomic section started by Hold.
+func (x *Exec) Release() {
+	x.atomic.Store(false)
+	Point("release")
 }
 
 type selReq struct {
@@ -270,9 +311,18 @@ func (x *Exec) Now() time.Duration { return time.Since(x.t0) }
 // OnCleanup registers a function run at teardown (free-running).
 func (x *Exec) OnCleanup(f func()) {
 	x.mu.Lock()
+	if x.tornDown {
+		// registered by a straggler after teardown: run at once
+		x.mu.Unlock()
+		go f()
+		return
+	}
 	x.cleanups = append(x.cleanups, f)
 	x.mu.Unlock()
 }
+
+// Over reports whether the execution has ended (teardown started).
+func (x *Exec) Over() bool { return x.free.Load() }
 
 // AddFault declares a fault alternative.
 func (x *Exec) AddFault(f *Fault) { x.mu.Lock(); x.faults = append(x.faults, f); x.mu.Unlock() }
@@ -294,12 +344,12 @@ func (x *Exec) Go(dom string, f func()) {
 
 // Options for one execution.
 type Options struct {
-	Prefix   []int
-	Trace    bool
-	Horizon  time.Duration
-	Settle   time.Duration
-	MaxSteps int
-	CheckHash uint64 // expected rolling hash at position len(Prefix)-1 (0 = unchecked)
+	Prefix    []int
+	Trace     bool
+	Horizon   time.Duration
+	Settle    time.Duration
+	MaxSteps  int
+	CheckHash uint64        // expected rolling hash at position len(Prefix)-1 (0 = unchecked)
 	AtEnd     func(x *Exec) // called at the end of the execution, before teardown
 }
 
@@ -307,17 +357,19 @@ type Options struct {
 // "host") and returns it. Must be called from the bubble's root goroutine.
 func Run(opt Options, setup func(x *Exec), body func(x *Exec)) *Exec {
 	x := &Exec{
-		lids:      map[int64]int{},
-		domains:   map[unsafe.Pointer]*Domain{},
-		domByName: map[string]*Domain{},
-		prefix:    opt.Prefix,
-		Trace:     opt.Trace,
-		Horizon:   opt.Horizon,
-		Settle:    opt.Settle,
-		MaxSteps:  opt.MaxSteps,
-		sigs:      map[uint64]struct{}{},
-		lastLid:   -1,
-		Data:      map[string]any{},
+		lids:       map[int64]int{},
+		domains:    map[unsafe.Pointer]*Domain{},
+		domByName:  map[string]*Domain{},
+		prefix:     opt.Prefix,
+		Trace:      opt.Trace,
+		Horizon:    opt.Horizon,
+		Settle:     opt.Settle,
+		MaxSteps:   opt.MaxSteps,
+		sigs:       map[uint64]struct{}{},
+		lastLid:    -1,
+		Data:       map[string]any{},
+		closed:     map[any]struct{}{},
+		timerChans: map[uintptr]timerChan{},
 	}
 	if x.Horizon == 0 {
 		x.Horizon = 120 * time.Second
@@ -350,13 +402,14 @@ func Run(opt Options, setup func(x *Exec), body func(x *Exec)) *Exec {
 	x.parkedL = nil
 	cl := x.cleanups
 	x.cleanups = nil
+	x.tornDown = true
 	x.mu.Unlock()
 	cur.Store(nil)
 	for _, p := range pl {
 		p.wake <- 0
 	}
 	for i := len(cl) - 1; i >= 0; i-- {
-		cl[i]()
+		go cl[i]() // free-running, uncontrolled: may block without stalling the teardown
 	}
 	synctest.Wait()
 	// let stale timers (5 s broker waits, 2 s grace...) of this execution expire now
@@ -518,10 +571,28 @@ func (x *Exec) loop(opt Options) {
 		for _, p := range en {
 			alts = append(alts, alt{kind: AGo, p: p})
 		}
+		if x.atomic.Load() {
+			// atomic section: canonical choice, no decision point
+			a := alts[0]
+			x.lastLid = a.p.lid
+			x.remove(a.p)
+			a.p.wake <- 0
+			continue
+		}
 		for _, p := range en {
 			if p.kind == KSelect {
-				for k := 1; k < p.ncase; k++ {
-					alts = append(alts, alt{kind: ASel, p: p, prio: k})
+				// offer "prefer clause k" only when k may be ready and an earlier
+				// clause may be ready too (otherwise the default order takes k anyway)
+				earlier := false
+				for k := 0; k < p.ncase; k++ {
+					st := p.cases[k].status(x)
+					if st == 0 {
+						continue
+					}
+					if earlier && k > 0 {
+						alts = append(alts, alt{kind: ASel, p: p, prio: k})
+					}
+					earlier = true
 				}
 			}
 		}
@@ -720,3 +791,13 @@ func SetInBubble() { inBubble.Store(true) }
 
 // InBubble reports whether the process runs its executions inside a bubble.
 func InBubble() bool { return inBubble.Load() }
+
+// GoFree runs f in a goroutine of the host domain during an end-of-execution
+// check (so that its scheduling points are served by Quiesce).
+func (x *Exec) GoFree(f func()) {
+	d := x.Domain("host")
+	go func() {
+		d.enter()
+		f()
+	}()
+}
